@@ -1,3 +1,4 @@
+import IrVerif.Model.Sort
 /-
 Model of the pass infrastructure of onnx_ir (property C14).
 
@@ -166,6 +167,14 @@ def countingPass {S σ : Type} (sites : S → List σ) (rw : σ → S → Option
   let out := traverse rw (sites s) s 0
   (out.1, out.2 != 0)
 
+/-- a counting pass as an in-place user pass (world = the abstract state, the model object is
+    returned as is), so that it can be put under `Sequential` / `PassManager` -/
+def countingLeaf {S σ : Type} (sites : S → List σ) (rw : σ → S → Option S) : Leaf S where
+  inPlace := true
+  requires := noHook
+  call := fun s m => ((countingPass sites rw s).1, .result ⟨m, (countingPass sites rw s).2⟩)
+  ensures := noHook
+
 /-! ### RemoveInitializersFromInputsPass / AddInitializersToInputsPass
 (constant_manipulation.py 214-262) as instances of `countingPass` -/
 namespace InitInputs
@@ -323,6 +332,16 @@ end ClearMeta
 def sortFlag (before after : List (List Nat)) : Bool :=
   (before.zip after).any (fun p => (p.1.zip p.2).any (fun q => q.1 != q.2))
 
+/-- all node sequences of a list of per-graph-like container snapshots, in the order in which
+    `TopologicalSortPass.call` collects `graph_likes` (main graph, its subgraphs, each function, its
+    subgraphs) -/
+def flatOrders (x : List (List (Nat × List Nat))) : List (List Nat) := x.flatten.map (·.2)
+
+/-- `TopologicalSortPass.call` on C12's model of the pass (`Sort.passEffect`, `[main] ++ functions`):
+    the flag it returns when the sort does not raise -/
+def sortPassFlag (gs : List Sort.MGraph) : Bool :=
+  sortFlag (flatOrders (gs.map Sort.graphsOf)) (flatOrders (Sort.passEffect gs).2)
+
 /-! ## call_onnx_api (`_c_api_utils.py` 23-93) -/
 namespace CApi
 
@@ -350,6 +369,8 @@ structure G where
   val : Nat → Val
   inits : List (String × Nat)
   inputs : List Nat
+  /-- `tensor.name` of every tensor object (by tensor identity): the one thing serialization writes -/
+  tname : Nat → String
 
 def setVal (g : G) (i : Nat) (v : Val) : G :=
   { g with val := fun j => if j = i then v else g.val j }
@@ -465,10 +486,24 @@ inductive Outcome (R : Type) where
   | raised
   deriving Repr
 
+/-- The side effect of `serialize_model` on the model (serde.py `serialize_graph_into`: "make sure the
+    tensor's name is the same as the value's name", `value.const_value.name = value.name`, executed
+    for an initializer just before its tensor is serialized): the tensors of the first `n`
+    initializers that still carry one get the name of their value.  `n` = how far serialization got. -/
+def renamePrefix : Nat → List (String × Nat) → G → G
+  | 0, _, g => g
+  | _, [], g => g
+  | n + 1, (_, i) :: l, g =>
+    match (g.val i).const with
+    | none => renamePrefix (n + 1) l g
+    | some t =>
+      renamePrefix n l { g with tname := fun j => if j = t.id then (g.val i).name else g.tname j }
+
 /-- `call_onnx_api(func, model)`.  `ser` is `ir.serde.serialize_model` and `func` the wrapped ONNX
-    call; either may raise (`none`).  `f` makes one primitive step of the strip loop raise. -/
-def callOnnxApi {P R : Type} (f : Option Fault) (ser : G → Option P) (func : P → Option R)
-    (g : G) : G × Outcome R :=
+    call; either may raise (`none`).  `reach` says how many initializer tensors the serializer got to
+    (whether it then finished or raised).  `f` makes one primitive step of the strip loop raise. -/
+def callOnnxApi {P R : Type} (f : Option Fault) (reach : G → Nat) (ser : G → Option P)
+    (func : P → Option R) (g : G) : G × Outcome R :=
   let ids := g.inits.map (·.2)
   let saved := ids.map (fieldsOf g)
   let inputs0 := g.inputs
@@ -481,24 +516,54 @@ def callOnnxApi {P R : Type} (f : Option Fault) (ser : G → Option P) (func : P
         match func proto with
         | none => .raised
         | some r => .ok r
-  (restore saved inputs0 s.g, out)
+  let g2 := if s.raised then s.g else renamePrefix (reach s.g) s.g.inits s.g
+  (restore saved inputs0 g2, out)
 
 /-- `CheckerPass.call` (onnx_checker.py 43-57): the exception of the call propagates, success
     returns `PassResult(model, False)` -/
-def checkerCall {P : Type} (f : Option Fault) (ser : G → Option P) (check : P → Option Unit)
-    (g : G) (m : ModelId) : G × CallRet :=
-  match callOnnxApi f ser check g with
+def checkerCall {P : Type} (f : Option Fault) (reach : G → Nat) (ser : G → Option P)
+    (check : P → Option Unit) (g : G) (m : ModelId) : G × CallRet :=
+  match callOnnxApi f reach ser check g with
   | (g', .ok _) => (g', .result ⟨m, false⟩)
   | (g', .raised) => (g', .raised .other)
 
 /-- `ShapeInferencePass.call` (shape_inference.py 75-92): any exception of `call_onnx_api` is
-    swallowed and `(model, False)` returned; otherwise the inferred proto is merged (`merge`
-    returns the new graph and whether anything was written). -/
-def shapeInferenceCall {P : Type} (f : Option Fault) (ser : G → Option P) (infer : P → Option P)
-    (merge : G → P → G × Bool) (g : G) (m : ModelId) : G × CallRet :=
-  match callOnnxApi f ser infer g with
+    swallowed and `(model, False)` returned; otherwise `_merge_func` (22-50) first deserializes the
+    inferred proto (`deser`; it raises e.g. for a proto that re-declares a name, and that exception
+    propagates - nothing has been written at that point) and then merges (`merge` returns the new
+    graph and whether anything was written). -/
+def shapeInferenceCall {P Q : Type} (f : Option Fault) (reach : G → Nat) (ser : G → Option P)
+    (infer : P → Option P) (deser : P → Option Q) (merge : G → Q → G × Bool) (g : G) (m : ModelId) :
+    G × CallRet :=
+  match callOnnxApi f reach ser infer g with
   | (g', .raised) => (g', .result ⟨m, false⟩)
-  | (g', .ok p) => let (g'', md) := merge g' p; (g'', .result ⟨m, md⟩)
+  | (g', .ok p) =>
+    match deser p with
+    | none => (g', .raised .other)
+    | some q => ((merge g' q).1, .result ⟨m, (merge g' q).2⟩)
+
+/-- one value of the inferred model: name, shape token, dtype token -/
+abbrev Inferred := List (String × Option Nat × Option Nat)
+
+/-- lines 40-42: `if value.shape != inferred.shape and inferred.shape is not None: value.shape = ...` -/
+def mergeShape (sh : Option Nat) (st : G × Bool) (i : Nat) : G × Bool :=
+  if (st.1.val i).shape != sh && sh.isSome then (setVal st.1 i { st.1.val i with shape := sh }, true)
+  else st
+
+/-- lines 43-45: the same for the dtype -/
+def mergeType (dt : Option Nat) (st : G × Bool) (i : Nat) : G × Bool :=
+  if (st.1.val i).type != dt && dt.isSome then (setVal st.1 i { st.1.val i with type := dt }, true)
+  else st
+
+/-- the body of the loop of `_merge_func` (lines 37-50) for the original value `i` -/
+def mergeOne (inf : Inferred) (st : G × Bool) (i : Nat) : G × Bool :=
+  match inf.lookup (st.1.val i).name with
+  | none => st
+  | some (sh, dt) => mergeType dt (mergeShape sh st i) i
+
+/-- `_merge_func` on the values `ids` of the original graph (in the order of `create_value_mapping`) -/
+def mergeVals (ids : List Nat) (g : G) (inf : Inferred) : G × Bool :=
+  ids.foldl (mergeOne inf) (g, false)
 
 /-- what `serialize_model` puts into the proto, as far as the strip is concerned: initializer names
     (in order) with their tensor ids, and the graph inputs with name, shape and type tokens -/
@@ -514,6 +579,14 @@ def serView (g : G) : Option ProtoView :=
   else some {
     inits := g.inits.filterMap (fun p => (g.val p.2).const.map (fun t => (p.1, t.id)))
     inputs := g.inputs.map (fun i => ((g.val i).name, (g.val i).shape, (g.val i).type)) }
+
+/-- how far the concrete serialization gets: through the first tensor that cannot be serialized
+    (it is renamed before it is written), or through all of them -/
+def serReach (g : G) : Nat :=
+  let ts := g.inits.filterMap (fun p => (g.val p.2).const)
+  match ts.findIdx? (·.bad) with
+  | some k => k + 1
+  | none => ts.length
 
 end CApi
 
